@@ -513,3 +513,72 @@ def rule_single_traversal(ctx, R: str, root_fqs: list[str]):
                 'the first traversal consumes samples the second one never sees')
   if n_vars < 1:
     raise index.AnalysisError(f'{R}: no Iterable-typed variable found in the call tree')
+
+
+# ------------------------------------------------ performer id translation
+class _Capture:
+  """A Python-level stand-in for a registered transformation: records the input it is given."""
+  sa_hook = True
+
+  def __init__(self, info):
+    self.info = info
+    self.seen = []
+
+  def __call__(self, args, kwargs):
+    self.seen.append((args, kwargs))
+    return self.info
+
+
+def rule_performer_translation(ctx, R: str):
+  """Decision table of TransformationPerformer._apply_single_transformation:
+  the producer / consumer ids handed to the transformation are the image of the
+  instruction's ids under the current op-id maps, one entry per entry, the
+  pseudo id -1 (graph input / graph output) passed through."""
+  from sa import absint  # pylint: disable=g-import-not-at-top
+  from sa.consteval import Obj  # pylint: disable=g-import-not-at-top
+  rs = ctx.rule(R, 'ids handed to a transformation = image of the instruction ids under the op-id maps; -1 (graph output / input) passed through, one entry per entry', floor=1)
+  PERF = 'transformation_performer:TransformationPerformer'
+  f = ctx.repo.func(f'{PERF}._apply_single_transformation')
+  ctx.instance(R)
+  QT = {m.name: m for m in tables.enum(ctx, 'qtyping:QuantTransformation')}
+  orig, added = [0, 2, 3, 5], [1, 4]   # two ops were added already (positions 1 and 4)
+  prod_lattice = [None, -1, 0, 2, 3, 4, 5]
+  cons_lattice = [[-1], [0], [3], [1, -1], [-1, 1], [0, 2], [2, 2], [2, 2, -1], [0, 1, 2, 3], [3, -1, 0]]
+  rs.exhaustive = True
+  n = 0
+  for p in prod_lattice:
+    for cons in cons_lattice:
+      info = Obj('transformations.transformation_utils:TransformationInfo', {'op_id': 1, 'num_ops_added': 1, 'output_tensor_id': 9})
+      cap = _Capture(info)
+      hooks = {f'{PERF}._update_instructions': lambda a, k: None, f'{PERF}._update_op_id_map': lambda a, k: None,
+               f'{PERF}._first_original_op_at_or_after': lambda a, k: 0}
+      it = absint.Interp(ctx.repo, ctx.ev, hooks=hooks)
+      inst = Obj('qtyping:TransformationInst', {'transformation': QT['ADD_DEQUANTIZE'], 'tensor_id': 7, 'producer': p, 'consumers': list(cons), 'parameters': None})
+      insts = Obj('qtyping:TensorTransformationInsts', {'tensor_name': 't', 'subgraph_id': 1, 'instructions': [inst]})
+      selfo = Obj(PERF, {'_original_op_id_map': [[0], list(orig)], '_added_op_id_map': [[], list(added)],
+                         '_transformation_registration': {QT['ADD_DEQUANTIZE']: cap}})
+      sg0, sg1 = Obj('x:SubGraphT', {'name': 'sg0'}), Obj('x:SubGraphT', {'name': 'sg1'})
+      model = Obj('x:ModelT', {'operatorCodes': ['codes'], 'buffers': ['buffers'], 'subgraphs': [sg0, sg1]})
+      outs = it.outcomes(f, [selfo, insts, 0, model], copy_args=False)
+      label = f'producer={p}, consumers={cons}'
+      if len(outs) != 1 or outs[0].kind != 'return' or len(cap.seen) != 1:
+        ctx.check(R, False, f.node, f, label, f'not decided: {[o.short() for o in outs]} / {len(cap.seen)} dispatches')
+        continue
+      args, kwargs = cap.seen[0]
+      ti = args[0] if args else None
+      if not (isinstance(ti, Obj) and ti.cls.endswith('TransformationInput')):
+        ctx.check(R, False, f.node, f, label, 'the transformation is not given a TransformationInput')
+        continue
+      want_p = -1 if p is None or p < 0 else (orig[p] if p < len(orig) else added[p - len(orig)])
+      want_c = sorted(-1 if x < 0 else orig[x] for x in cons)
+      got_p, got_c = ti.fields['producer'], ti.fields['consumers']
+      n += 1
+      ctx.check(R, got_p == want_p, f.node, f, label, f'producer handed to the transformation is {got_p!r}, the op-id maps say {want_p}')
+      ok = isinstance(got_c, list) and not any(isinstance(x, absint.Opaque) for x in got_c) and sorted(got_c) == want_c
+      ctx.check(R, ok, f.node, f, label,
+                f'consumers handed to the transformation are {got_c!r}; the instruction says {cons} -> {want_c} under the current op-id map. '
+                'A dropped -1 means the graph output is not rewired to the new tensor (the model output changes type); a dropped or duplicated '
+                'operator id leaves a consumer reading the wrong tensor')
+      ctx.check(R, ti.fields['tensor_id'] == 7 and ti.fields['subgraph'] is sg1 and ti.fields['quant_params'] is None and ti.fields['op_codes'] == ['codes'] and ti.fields['buffers'] == ['buffers'],
+                f.node, f, label, 'tensor id / subgraph / op codes / buffers / parameters handed to the transformation are not those of the instruction')
+  ctx.sample(R, {'orig_map': orig, 'added_map': added, 'producer_lattice': [repr(x) for x in prod_lattice], 'consumer_lattice': cons_lattice, 'rows': n})
